@@ -1,0 +1,180 @@
+//go:build verif
+
+package badger
+
+import (
+	"time"
+
+	"github.com/dgraph-io/badger/v4/table"
+	"github.com/dgraph-io/badger/v4/y"
+)
+
+// Thin test-driver entry points for the /verif correspondence harness (engine "mvcc").
+// They only call production code.
+
+// VEntry is one LSM entry as stored: user key, version, raw meta, and the logical value
+// (value-log pointers resolved through vlog.Read).
+type VEntry struct {
+	Key       []byte
+	Version   uint64
+	Meta      byte
+	UserMeta  byte
+	ExpiresAt uint64
+	Value     []byte
+	ReadErr   string
+}
+
+type VTable struct {
+	ID         uint64
+	Level      int
+	Entries    []VEntry
+	StaleSize  uint32
+	MaxVersion uint64
+	Size       int64
+}
+
+func (db *DB) verifEntry(key []byte, vs y.ValueStruct) VEntry {
+	e := VEntry{Key: y.Copy(y.ParseKey(key)), Version: y.ParseTs(key), Meta: vs.Meta,
+		UserMeta: vs.UserMeta, ExpiresAt: vs.ExpiresAt}
+	if vs.Meta&bitValuePointer > 0 {
+		var vp valuePointer
+		vp.Decode(vs.Value)
+		val, cb, err := db.vlog.Read(vp, nil)
+		if err != nil {
+			e.ReadErr = err.Error()
+		} else {
+			e.Value = y.Copy(val)
+		}
+		runCallback(cb)
+	} else {
+		e.Value = y.Copy(vs.Value)
+	}
+	return e
+}
+
+// VerifLevels dumps every level's tables in the level handler's slice order.
+func VerifLevels(db *DB) [][]VTable {
+	out := make([][]VTable, len(db.lc.levels))
+	for i, lh := range db.lc.levels {
+		lh.RLock()
+		tables := make([]*table.Table, len(lh.tables))
+		copy(tables, lh.tables)
+		for _, t := range tables {
+			t.IncrRef()
+		}
+		lh.RUnlock()
+		for _, t := range tables {
+			vt := VTable{ID: t.ID(), Level: i, StaleSize: t.StaleDataSize(), MaxVersion: t.MaxVersion(), Size: t.Size()}
+			it := t.NewIterator(0)
+			for it.Rewind(); it.Valid(); it.Next() {
+				vt.Entries = append(vt.Entries, db.verifEntry(it.Key(), it.Value()))
+			}
+			it.Close()
+			_ = t.DecrRef()
+			out[i] = append(out[i], vt)
+		}
+	}
+	return out
+}
+
+// VerifMemEntries dumps the active memtable followed by the immutable ones (newest first).
+func VerifMemEntries(db *DB) [][]VEntry {
+	tables, decr := db.getMemTables()
+	defer decr()
+	var out [][]VEntry
+	for _, mt := range tables {
+		var es []VEntry
+		it := mt.sl.NewUniIterator(false)
+		for it.Rewind(); it.Valid(); it.Next() {
+			es = append(es, db.verifEntry(it.Key(), it.Value()))
+		}
+		it.Close()
+		out = append(out, es)
+	}
+	return out
+}
+
+// VerifFlush rotates the active memtable through ensureRoomForWrite (by making it report
+// full) and waits until the flusher goroutine has turned every immutable memtable into an
+// L0 table.
+func VerifFlush(db *DB) error {
+	db.lock.Lock()
+	db.mt.opt.MemTableSize = 0
+	db.lock.Unlock()
+	if err := db.ensureRoomForWrite(); err != nil {
+		return err
+	}
+	for {
+		db.lock.RLock()
+		n := len(db.imm)
+		db.lock.RUnlock()
+		if n == 0 {
+			return nil
+		}
+		time.Sleep(200 * time.Microsecond)
+	}
+}
+
+// VerifCompact runs one production compaction (picker + runCompactDef) on `level`.
+func VerifCompact(db *DB, id, level int, score, adjusted float64, dropPrefixes [][]byte) error {
+	p := compactionPriority{level: level, score: score, adjusted: adjusted,
+		dropPrefixes: dropPrefixes, t: db.lc.levelTargets()}
+	return db.lc.doCompact(id, p)
+}
+
+// VerifBaseLevel is levelTargets().baseLevel.
+func VerifBaseLevel(db *DB) int { return db.lc.levelTargets().baseLevel }
+
+// VerifBackdate makes every table look `d` older (L0->L0 and Lmax->Lmax pickers skip young tables).
+func VerifBackdate(db *DB, d time.Duration) {
+	for _, lh := range db.lc.levels {
+		lh.RLock()
+		for _, t := range lh.tables {
+			t.CreatedAt = t.CreatedAt.Add(-d)
+		}
+		lh.RUnlock()
+	}
+}
+
+// VerifSyncMarks waits until both watermarks have processed every mark sent so far.
+func VerifSyncMarks(db *DB) {
+	db.orc.readMark.VerifBarrier()
+	db.orc.txnMark.VerifBarrier()
+}
+
+func VerifDiscardTs(db *DB) uint64 { return db.orc.discardAtOrBelow() }
+
+func VerifNextTxnTs(db *DB) uint64 {
+	db.orc.Lock()
+	defer db.orc.Unlock()
+	return db.orc.nextTxnTs
+}
+
+func VerifCommitTs(txn *Txn) uint64 { return txn.commitTs }
+
+// VerifLimits: maxBatchCount, maxBatchSize, current value threshold.
+func VerifLimits(db *DB) (int64, int64, int64) {
+	return db.opt.maxBatchCount, db.opt.maxBatchSize, db.valueThreshold()
+}
+
+// VerifValidate runs the level validation Open runs.
+func VerifValidate(db *DB) error { return db.lc.validate() }
+
+// VerifGetAt is DB.get at an arbitrary read timestamp (what a transaction with that
+// readTs would be served by Txn.Get, before the deleted/expired test).
+func VerifGetAt(db *DB, key []byte, ts uint64) (VEntry, bool, error) {
+	vs, err := db.get(y.KeyWithTs(key, ts))
+	if err != nil {
+		return VEntry{}, false, err
+	}
+	if vs.Value == nil && vs.Meta == 0 {
+		return VEntry{}, false, nil
+	}
+	e := db.verifEntry(y.KeyWithTs(key, vs.Version), vs)
+	return e, true, nil
+}
+
+// VerifIsDeletedOrExpired exposes isDeletedOrExpired.
+func VerifIsDeletedOrExpired(meta byte, expiresAt uint64) bool {
+	return isDeletedOrExpired(meta, expiresAt)
+}
